@@ -41,7 +41,7 @@ type c10Case struct {
 func (c10) Cases(tier string, seed uint64) []core.Case {
 	n := 400
 	if tier == "thorough" {
-		n = 20000
+		n = 400000
 	}
 	r := core.NewRng(core.Mix(seed, 0xC10))
 	shards := []int{1, 2, 3, 4, 16, 64, 1024}
